@@ -19,6 +19,10 @@ def out1 (n : Nat) (f : Nat → CF) : String :=
 def out2 (n : Nat) (f : Nat → Nat → CF) : String :=
   joinFloats ((Array.range (n*n)).foldl (fun acc i => let z := f (i / n) (i % n); (acc.push z.re).push z.im) #[])
 
+/-- `rows × cols` output, row-major -/
+def outR (rows cols : Nat) (f : Nat → Nat → CF) : String :=
+  joinFloats ((Array.range (rows*cols)).foldl (fun acc i => let z := f (i / cols) (i % cols); (acc.push z.re).push z.im) #[])
+
 /-- memoise an index function on `[0,n)` so that nested transforms stay O(n²) per axis -/
 def memo1 (n : Nat) (f : Nat → CF) : Nat → CF :=
   let a := (Array.range n).map f
@@ -56,6 +60,21 @@ def handle (args : List String) : Option String :=
       | "ift2" => if a.size ≠ 2*n*n then none else
           let x : Nat → Nat → CF := fun i j => toC a (i*n+j)
           some (out2 n (ift2 n wi ninv nC dC x))
+      | "rft2" => if a.size ≠ 2*n*n then none else
+          -- real n × n input (given as complex with zero imaginary parts) → n × (n/2+1) half-spectrum
+          let x : Nat → Nat → CF := fun i j => toC a (i*n+j)
+          some (outR n (n / 2 + 1) (rft2 n w dC x))
+      | "irft2" =>
+          -- here `n` is N = data.shape[-2]; the half-spectrum length m = data.shape[-1] follows from the data size;
+          -- the last axis of the result has length 2 (m − 1)
+          if a.size % (2*n) ≠ 0 then none else
+          let m := a.size / (2*n)
+          let nn := 2 * (m - 1)
+          if m = 0 ∨ nn = 0 then none else
+          let wiL := memo1 nn (twi nn)
+          let ninvL : CF := ⟨1.0 / nn.toFloat, 0.0⟩
+          let H : Nat → Nat → CF := fun i k => toC a (i*m+k)
+          some (outR n nn (irft2 n m wi ninv wiL ninvL Cx.conj nC dC H))
       | "ift2ps" => if a.size ≠ 2*n*n then none else
           let x : Nat → Nat → CF := fun i j => toC a (i*n+j)
           some (out2 n (ift2_ps n wi ninv nC dC x))
